@@ -78,7 +78,10 @@ def gen_arch(rng):
         return [('lin', dims[i], dims[i + 1], rng.random() < 0.7) for i in range(len(dims) - 1)]
     c1 = rng.choice([1, 2])
     c2 = rng.choice([2, 3])
-    return [('conv', c1, c2, rng.choice([1, 2]), 1, rng.choice([0, 1]), rng.random() < 0.7),
+    k = rng.choice([(1, 1), (2, 2), (1, 3), (2, 1), (3, 2)])
+    st = rng.choice([(1, 1), (1, 1), (2, 1), (1, 2)])
+    pd = rng.choice([(0, 0), (1, 1), (0, 1), (1, 0), (2, 1)])
+    return [('conv', c1, c2, k, st, pd, rng.random() < 0.7),
             ('flat', c2),
             ('lin', None, rng.choice([2, 3]), rng.random() < 0.7)]
 
@@ -147,7 +150,7 @@ def fix_loads(cfg):
 def build_model(cfg):
     torch.manual_seed(cfg.seed)
     mods = []
-    spatial = 4
+    sh_, sw_ = 4, 5
     for a in cfg.arch:
         if a[0] == 'lin':
             fin = a[1]
@@ -158,10 +161,11 @@ def build_model(cfg):
         elif a[0] == 'conv':
             mods.append(torch.nn.Conv2d(a[1], a[2], a[3], stride=a[4], padding=a[5], bias=a[6]))
             mods.append(torch.nn.Tanh())
-            spatial = (spatial + 2 * a[5] - a[3]) // a[4] + 1
+            sh_ = (sh_ + 2 * a[5][0] - a[3][0]) // a[4][0] + 1
+            sw_ = (sw_ + 2 * a[5][1] - a[3][1]) // a[4][1] + 1
         elif a[0] == 'flat':
             mods.append(torch.nn.Flatten())
-            cfg._flat = a[1] * spatial * spatial
+            cfg._flat = a[1] * sh_ * sw_
     return torch.nn.Sequential(*mods).to(DT)
 
 
@@ -177,7 +181,7 @@ def input_for(cfg, rank, pass_):
     a0 = cfg.arch[0]
     if a0[0] == 'lin':
         return torch.randn(cfg.batch, a0[1], generator=g, dtype=DT)
-    return torch.randn(cfg.batch, a0[1], 4, 4, generator=g, dtype=DT)
+    return torch.randn(cfg.batch, a0[1], 4, 5, generator=g, dtype=DT)
 
 
 def hp_arg(v, log=None, name=None):
@@ -638,6 +642,10 @@ def compare(ctx, cfg, rr, mo, tol=2e-3, streams=('trace', 'grads', 'ranks', 'mem
     err_s = err_s + ' ' + info_s.replace('wfinfo', '').strip()
     outs = outs_s.split(' | ')
     m_fail = not (err_s.startswith('err=none') and err_s.endswith('stall=0'))
+    ms = re.search(r' spec=(\S+)', err_s)
+    if ms and ms.group(1) == '0':
+        ctx.compare('precond-refines-spec', dict(case, model_says=err_s), 'spec=1', 'M-Precond output differs from the Spec machine')
+    ctx.count('spec-refinement-' + (ms.group(1) if ms else 'absent'))
     if not m_fail and ' wf=1 ' not in err_s + ' ':
         ctx.compare('precond-script-wf', dict(case, model_says=err_s), 'wf=1', 'model script not well-formed')
     i_fail = run_failed(rr)
@@ -751,6 +759,8 @@ def oracle_reference(ctx, cfg, rr, tol=5e-3, key='grad-vs-reference'):
     if ref is None:
         return
     for i, want in ref.items():
+        if isinstance(i, tuple):
+            continue
         for r in range(cfg.world):
             got = rr.res[r]['ops'][i]['grads']
             for l in range(len(dims)):
@@ -842,7 +852,7 @@ def replay_case(ctx, payload, streams, oracles=()):
     cfg = Config(random.Random(0), world=c['world'])
     for k_ in ('k', 'colocate', 'strategy', 'method', 'prediv', 'sym', 'cap_mb', 'accum', 'hook', 'batch', 'seed'):
         setattr(cfg, k_, c[k_])
-    cfg.arch = [tuple(a) for a in c['arch']]
+    cfg.arch = [tuple(tuple(x) if isinstance(x, list) else x for x in a) for a in c['arch']]
     cfg.ops = list(c['ops'])
 
     def un(v):
@@ -871,3 +881,39 @@ def replay_case(ctx, payload, streams, oracles=()):
     for d in ctx.disagreements[:3]:
         print('replay: correspondence differs on stream', d['stream'])
     return bool(ctx.failures)
+
+
+def oracle_factors(ctx, cfg, rr, tol=1e-9):
+    """C04 on the real run: every saved factor equals the decayed running average of batch second moments
+    (reference recurrence), is symmetric positive semi-definite and identical on all ranks."""
+    import ref_kfac
+    if run_failed(rr):
+        return
+    dims = rr.res[0]['assign']['dims']
+    ref = ref_kfac.reference_grads(cfg, rr, dims)
+    if ref is None:
+        return
+    case = cfg.describe()
+    for key, val in ref.items():
+        if not isinstance(key, tuple):
+            continue
+        RA, RG = val
+        i = key[1]
+        for r in range(cfg.world):
+            facs = rr.res[r]['ops'][i].get('factors')
+            if facs is None:
+                continue
+            for l in range(len(dims)):
+                for which, want, got in (('A', RA[l], facs[l][0]), ('G', RG[l], facs[l][1])):
+                    if want is None and got is None:
+                        continue
+                    if want is None or got is None:
+                        return ctx.fail(f'factor {which} of layer {l} on rank {r}: present/absent mismatch', dict(case, op_index=i), 'factor-presence')
+                    e = relerr(want, got)
+                    if e > tol:
+                        return ctx.fail(f'factor {which} of layer {l} on rank {r} differs from decay*previous+(1-decay)*M '
+                                        f'by {e:.2e}', dict(case, op_index=i, layer=l, which=which), 'factor-recurrence')
+                    if relerr(got, got.t()) > 1e-12:
+                        return ctx.fail(f'factor {which} of layer {l} is not symmetric', dict(case, op_index=i), 'factor-symmetric')
+                    if torch.linalg.eigvalsh((got + got.t()) / 2).min().item() < -1e-9 * max(1.0, got.abs().max().item()):
+                        return ctx.fail(f'factor {which} of layer {l} is not positive semi-definite', dict(case, op_index=i), 'factor-psd')
